@@ -351,6 +351,7 @@ package gojq
 
 //@ func binopTypeSwitch[int]@Compare(l, r any, callbackInts, callbackFloats, callbackBigInts, callbackStrings, callbackArrays, callbackMaps, fallback) (c int)
 //@   property C11 C10
+//@   using cmpv_range cmpv_rank cmpv_low cmpv_int cmpv_float cmpv_str bigFloat_small intlit_chars str_lt_irrefl str_lt_asym
 //@   ensures c == cmpv(l, r)
 
 //@ func Compare(l, r any) (c int)
